@@ -181,5 +181,14 @@ fn main() {
             }
         }
     }
+    // directed: the replace of meta.json fails (end of a merge / commit that empties a segment), then the same writer collects
+    for variant in ["merge", "commit"] {
+        let m = e1::meta_write_failure_then_gc(variant);
+        for (ok, d) in e1::meta_failure_verdicts(&m) { out.spec_checked(ok, d); }
+        let mut pids = PathIds::new();
+        let (evs, _) = e1::to_events(&m.log, &mut pids);
+        out.coq_case("tie", format!("monitor {}", e1::trace_term(&evs)), json!({"what": "commit/GC discipline on the trace of the directed meta.json-failure scenario", "variant": variant, "events": evs.len()}), true);
+        out.count("directed_meta_failure_scenarios", 1);
+    }
     out.finish(json!({"tier": args.tier, "seed": args.seed}));
 }
